@@ -80,7 +80,7 @@ func (c *Ctx) serverScenario(vals map[string]byte, cmd string, generic bool) Sce
 							if ix, ok := l.(*ast.IndexExpr); ok {
 								l = ix.X
 							}
-							if f := selField(info, l); f != nil && fieldOfMessage(c, f) && facts[identFact{cmdObserved, false}] {
+							if f := selField(info, l); f != nil && fieldOfMessage(c.Program, f) && facts[identFact{cmdObserved, false}] {
 								set(identFact{msgRewritten, false}, true)
 							}
 						}
@@ -176,7 +176,7 @@ var msgRewritten types.Object = types.NewVar(token.NoPos, nil, "§message-rewrit
 // cmdObserved marks that msg.Command() has been evaluated on this path.
 var cmdObserved types.Object = types.NewVar(token.NoPos, nil, "§command-observed", types.Typ[types.Bool])
 
-func fieldOfMessage(c *Ctx, f *types.Var) bool {
+func fieldOfMessage(c *Program, f *types.Var) bool {
 	return f == c.Field("internal/server", "Message", "Args") || f == c.Field("internal/server", "Message", "_command")
 }
 
@@ -184,7 +184,7 @@ var msgMutatorCache map[*types.Func]bool
 
 // messageMutators: functions of internal/server that assign Args or _command of a *Message parameter
 // (directly, or by calling such a function with it).
-func (c *Ctx) messageMutators() map[*types.Func]bool {
+func (c *Program) messageMutators() map[*types.Func]bool {
 	if msgMutatorCache != nil {
 		return msgMutatorCache
 	}
@@ -262,4 +262,49 @@ var gateScenarios = map[string]map[string]byte{
 func (c *Ctx) armGated(fn *FuncInfo, sw *ast.SwitchStmt, cmd, gate string) (bool, []ast.Node) {
 	out, w := c.fallsOutOfSwitch(fn, sw, c.serverScenario(gateScenarios[gate], cmd, false))
 	return !out, w
+}
+
+// isCommandTag: the tag of a switch over the command — msg.Command() itself, or a local that was defined once
+// as msg.Command() with no rewrite of a message between that definition and the switch (so the local and the call
+// denote the same value where the tag is evaluated).
+func (p *Program) isCommandTag(fn *FuncInfo, e ast.Expr) bool {
+	info := fn.Info()
+	e = ast.Unparen(e)
+	if isCommandCall(info, e) {
+		return true
+	}
+	id, ok := e.(*ast.Ident)
+	if !ok {
+		return false
+	}
+	r := resolveLocal(info, fn.Decl.Body, id)
+	if r == ast.Expr(id) || !isCommandCall(info, r) {
+		return false
+	}
+	muts := p.messageMutators()
+	rewrites := false
+	ast.Inspect(fn.Decl.Body, func(n ast.Node) bool {
+		// only what lies between the definition of the local and the evaluation of the tag can separate them
+		if n == nil || n.End() <= r.Pos() || n.Pos() >= e.Pos() {
+			return n != nil && n.Pos() < e.Pos()
+		}
+		if call, ok := n.(*ast.CallExpr); ok {
+			if f := callee(info, call); f != nil && muts[f] {
+				rewrites = true
+			}
+		}
+		if as, ok := n.(*ast.AssignStmt); ok {
+			for _, l := range as.Lhs {
+				l = ast.Unparen(l)
+				if ix, ok := l.(*ast.IndexExpr); ok {
+					l = ix.X
+				}
+				if f := selField(info, l); f != nil && fieldOfMessage(p, f) {
+					rewrites = true
+				}
+			}
+		}
+		return true
+	})
+	return !rewrites
 }
